@@ -46,6 +46,9 @@ def make_cases(ctx, rng):
     # literals-section header thresholds (1 KiB / 16 KiB of Huffman-compressed literals, no sequences)
     for sz in (1023, 1024, 1025, 16383, 16384, 16385):
         add("debruijn", sz, "compress2", {"level": 1, "minMatch": 5, "literalMode": 1, "windowLog": 17})
+    # raw-literals header thresholds (32 / 4096 literals) inside a compressed block: literal compression disabled, one match at the end
+    for sz in list(range(29, 36)) + list(range(4093, 4100)):
+        add("rawlits", sz, "compress2", {"level": 3, "literalMode": 2, "windowLog": 17})
     # a split block whose raw partition carries sequences: repeat-offset history across raw partitions
     for lvl in (18, 19, 22):
         add("splitraw", 3 * 131072, "compress2", {"level": lvl})
